@@ -170,6 +170,25 @@ def _explore(out, tier, seed, facts, replay):
                                   "(the metric altered the arrays cached in the dataset)" % (bt, n1, n2, v2, a2),
                                   {"bin_type": bt, "first": n1, "then": n2, "obs": spec["fields"]["obs"], "cdf_at_1": lo.tolist(), "cdf_at_2.5": hi.tolist()})
                     break
+    # a slice without any valid case gives NaN for every probabilistic metric (never a number), through the real dataset
+    for bt_ in BTS:
+        spec_ = {"times": [0, 86400, 172800], "leads": [0.0], "locs": [[1, 0.0, 0.0, 0.0], [2, 0.0, 0.0, 0.0]],
+                 "fields": {"obs": [[[None, None]], [[2.0, 0.5]], [[1.0, None]]], "fcst": [[[1.0, 1.0]], [[2.0, 2.0]], [[0.0, 3.0]]]}}
+        inp_ = datagen.mem_input(spec_, "m")
+        inp_.thresholds = np.array([1.0, 2.5])
+        inp_.threshold_scores = np.stack([np.full((3, 1, 2), 0.25), np.full((3, 1, 2), 0.75)], axis=3)
+        d_ = verif.data.Data([inp_])
+        iv_ = verif.util.get_intervals(bt_, np.array([1.0, 2.5]))[0]
+        for n_ in ("Bs", "BsUnc", "Bss", "BsRel", "BsRes", "Ign0", "Spherical", "MarginalRatio"):
+            try:
+                v_ = M[n_].compute(d_, 0, verif.axis.Time(), iv_)
+            except Exception as e:
+                out.violation("empty-slice-exception:%s" % n_.lower(), "%s -b %s along time with a day without observations raises %s: %s" % (n_, bt_, type(e).__name__, e),
+                              {"metric": n_, "bin_type": bt_, "dataset": spec_})
+                continue
+            if not math.isnan(float(v_[0])):
+                out.violation("empty-slice-number:%s" % n_.lower(), "%s -b %s: the day whose observations are all missing scores %r instead of NaN" % (n_, bt_, float(v_[0])),
+                              {"metric": n_, "bin_type": bt_, "dataset": spec_})
     # ensemble-derived probabilities and quantiles through Data
     nens = 40 if tier == "quick" else 400
     ens_cases = []
